@@ -22,10 +22,10 @@ CHECKS = {
   "45 entry points (the three constant-time multiplications with 0..3 terms, point arithmetic/comparison/encoding/import/export, table selection for every digit, all scalar and field operations incl. Select/Swap with both cond bits) x thousands of secrets (all recoder-transition witnesses, boundary scalars, torsion and mixed points in several representations, field forms and limb corners); the trace records every branch outcome, index, slice bound, shift count, div/mod operand, composite comparison and variable-time library call operand. Public shape = entry point, slice lengths, and the outcome of the documented zero-value test per Point argument. Run for the default and the purego build; feMul/feSquare assembly traced per instruction (pc, mnemonic, effective addresses).",
   "source-level leakage model (compiler output and micro-architecture not observed); bits.*, crypto/subtle, encoding/binary trusted; VarTime functions and decoder accept/reject decisions exempt per the statement", "3 C03"),
  "C04": (EX, "lattice", "exhaustive enumeration of input-string sets (all small y, the whole top-of-range window, complete one-byte deviation balls, all lengths) against an Euler-criterion/ModSqrt oracle",
-  "Accept/reject and the decoded point are compared with the model for every string of the enumerated sets (about half accepted, half rejected; all 19 non-canonical residues and the x=0 sign cases are inside).",
+  "Accept/reject and the decoded point are compared with the model for every string of the enumerated sets (about half accepted, half rejected; all 19 non-canonical residues and the x=0 sign cases are inside); every alphabet encoding is also decoded into receivers that hold a different point whose representation shares one or two stored coordinates with the decoded one.",
   "math/big; strings outside the enumerated sets are not decided", "3 C04"),
  "C05": (EX, "lattice", "exhaustive enumeration of (point, representation, producing operation) triples; byte-for-byte comparison with the model encoding",
-  "Every alphabet point in 8 injected and 11 operation-produced representations must encode to the model's canonical bytes and round-trip; all non-canonical accepted inputs must re-encode canonically.",
+  "Every alphabet point in 8 injected, 62 sparse-Z and 24 operation-produced representations (in-place, used and observed receivers) must encode to the model's canonical bytes and round-trip; two-step sequences Bytes(P);Bytes(Q);Bytes(P) over representations sharing stored coordinates; all non-canonical accepted inputs must re-encode canonically.",
   "math/big", "3 C05"),
  "C06": (EX, "lattice", "exhaustive enumeration of all ordered pairs of the point alphabet x representations; expected answer from model equality",
   "All ordered pairs (incl. P/-P, points sharing exactly one coordinate, all 64 torsion pairs), each side in several representations, both argument orders.",
@@ -34,7 +34,7 @@ CHECKS = {
   "All pairs of ~800 structured scalars (limb corners in both the integer and the Montgomery domain, all 2^k, l-2^k, ...) for Add/Subtract/Multiply/Equal, all triples of 48 for MultiplyAdd, Equal on every single-bit difference in both domains, and a register machine chaining the operations to depth 3 with all aliasing.",
   "math/big; scalars outside alphabet S are not decided", "3 C07"),
  "C08": (EX, "lattice", "exhaustive enumeration of deviation balls around boundary strings and of all lengths, against integer comparison / big.Int mod l",
-  "Complete one- and two-byte deviation balls around l-1, l, l+1, 0, 2^252, 2^256-1; one-byte balls of structured 64-byte inputs; the full 256x256 product of the two bytes clamping touches; all lengths 0..130; inputs checked unmodified up to cap.",
+  "Complete one-byte and boundary two-byte deviation balls around l-1, l, l+1, 0, 2^252, 2^256-1; one-byte balls of structured 64-byte inputs; the full 256x256 product of the two bytes clamping touches; alphabet S (incl. Montgomery-domain boundary images) zero-extended; rejected-then-valid sequences; all lengths 0..130. Thorough: COMPLETE two-byte balls (all position pairs x 65536 values) around l-1 and ff^64 (198 M strings).",
   "math/big", "3 C08"),
  "C09": (MC, "limbmodel+lattice+opseq", "abstract limb-bound transition system iterated to its fixpoint (closed box), every abstract transition replayed on the real code at the corner lattice of the box; explicit-state BFS over a 3-register Element machine; all against math/big",
   "The closed representation box is computed as a least fixpoint; every operation is executed on every vector of the box's corner lattice (incl. the all-maximal corner where every accumulator is largest), on all pairs of a coarser lattice, on every form of the field alphabet and on Mult32 chains, checking value and closure; real histories from SetBytes inputs are explored to depth 3.",
@@ -44,7 +44,7 @@ CHECKS = {
   "math/big; limb vectors outside the closed box are not injected", "3 C10"),
  "C11": (MC, "lattice",
   "complete enumeration of the finite program space: every exported method x every set partition of its pointer operand positions into aliased groups x value tuples, each executed on the real code with shared and with distinct storage and compared",
-  "The programs quantifier is finite (about 280 method/partition programs) and is covered completely, each for every tuple of a small value alphabet; operands that are not the receiver, byte slices up to cap, and the scalar/point slices (headers, elements, spare capacity, pointees) are compared bit for bit with snapshots.",
+  "The programs quantifier is finite and is covered completely (multi-scalar routines: every set partition of receiver+point slots x every partition of scalar slots up to 5 terms, 6 in the thorough tier: 23 k / 379 k programs), each for every tuple of a small value alphabet; operands that are not the receiver, byte slices up to cap, and the scalar/point slices (headers, elements, spare capacity, pointees) are compared bit for bit with snapshots.",
   "value alphabets are small (4-6 values per type); the distinct-storage run is the oracle (differential)", "3 C11"),
  "C12": (MC, "opseq", "explicit-state breadth-first search over a register machine whose transitions are the real exported operations; exact-state de-duplication; invariant evaluated with math/big in every reachable state",
   "Every exported Point-writing operation with every receiver/argument register choice, from 10-125 initial register assignments (uninitialised, identity, generator, order-8 point, mixed point in a scaled representation), to depth 2 on the full machine and depth 3 on a reduced one; in every state Z!=0, both curve identities, agreement with a shadow model, and Equal against identity/generator are checked.",
@@ -58,7 +58,7 @@ CHECKS = {
   "math/big decides validity", "3 C14"),
  "C15": (MC, "lattice",
   "complete enumeration of the finite misuse matrix: every exported Point operation x every Point-typed input position x ways of producing a zero value x other-argument values; recover() as oracle",
-  "Every input position of every operation (incl. each index of the points slice for n=1..3) is made zero-valued in five different ways with all other inputs valid -> must panic; receiver-only zero values must not panic; all (len scalars, len points) in {0..3}^2 panic iff different. The operation table is cross-checked against reflection.",
+  "Every input position of every operation (incl. each index of the points slice for n=1..3) is made zero-valued in five different ways with every assignment of the other-argument alphabet (all of E[8] - every point with a zero coordinate - plus B and a mixed point, canonical and projective) -> must panic; receiver-only zero values must not panic; all (len scalars, len points) in {0..4}^2 x every assignment of {generic, 0, 1, l-1} to the scalar slots panic iff the lengths differ. The operation table is cross-checked against reflection.",
   "recover() observes panics; the operation table lists today's exported methods (new ones are reported as uncovered)", "3 C15"),
  "C18": (MC, "sched",
   "stateless model checking of the implementation: depth-first exploration of thread schedules under a hand-written controlled scheduler - all schedules up to a preemption bound for ten closed harnesses, and ALL interleavings (no bound, pruning on complete state keys) for the table-construction harnesses - with vector-clock happens-before race detection on every explored schedule; sources instrumented at check time and injected with go build -overlay",
@@ -70,13 +70,13 @@ CHECKS = {
   "package state is observed behaviourally (probe battery) and through pointer ranges, not through a snapshot of package variables", "3 C19"),
  "C20": (EX, "lattice+two-build",
   "exhaustive enumeration of the corner lattice of the closed box for the dispatched vs portable multiply/square in one build, plus the quick enumerations of twelve other properties executed under both build configurations with digest comparison; dispatch established from the binaries",
-  "All 1024^2 (quick 243^2) lattice pairs and all L(K7) squares: assembly and portable results both equal math/big and both stay within the Multiply representation bound; the whole-library enumerations of C01,C02,C04-C10,C13,C16,C17 are re-run by a -tags purego binary built from the same tree, must be violation-free and must produce the same order-independent digest of value observations as the default build; nm/objdump confirm that the default build really runs the MULQ assembly and the purego build does not.",
+  "All 1024^2 (quick 243^2) lattice pairs and all L(K7) squares: assembly and portable results both equal math/big and both stay within the Multiply representation bound; the whole-library enumerations of C01,C02,C04-C10,C13,C16,C17 are re-run by a -tags purego binary built from the same tree, must be violation-free and must produce the same order-independent digest of value observations as the default build; nm/objdump confirm (by ABI, not by name) that the default build contains the MULQ assembly routines and the purego build none; otherwise the run is marked not exhaustive.",
   "math/big; lattice corners stand for the box; the two binaries are built from the same tree by ./check", "3 C20"),
  "C16": (EX, "lattice", "exhaustive enumeration of (u,v) grids and of all pairs of field-alphabet forms against an Euler-criterion/ModSqrt oracle",
   "All (u,v) in [0,256)^2, all ordered pairs of forms of alphabet F, lattice corners, with the receiver aliased to u, to v, to neither, and u,v the same pointer; all four contract classes counted.",
   "math/big", "3 C16"),
  "C17": (EX, "lattice", "exhaustive enumeration of (point, representation, producer) triples against u=(1+y)/(1-y) in math/big, plus differential comparison with crypto/ecdh X25519",
-  "Every alphabet point (identity, (0,-1), all torsion) in 19 representations; P and -P agree; X25519 public keys for a structured key alphabet agree with crypto/ecdh.",
+  "Every alphabet point (identity, (0,-1), all torsion) in 24 produced and 62 sparse-Z representations; two-step sequences u(P);u(Q);u(P) over representations sharing stored coordinates; P and -P agree; X25519 public keys for a structured key alphabet agree with crypto/ecdh.",
   "math/big; crypto/ecdh", "3 C17"),
 }
 
